@@ -10,6 +10,7 @@ import vloop
 
 from taskiq.abc.broker import AsyncBroker
 from taskiq.abc.schedule_source import ScheduleSource
+from taskiq.brokers.shared_broker import AsyncSharedBroker, async_shared_broker
 from taskiq.exceptions import ScheduledTaskCancelledError, SendTaskError
 from taskiq.labels import prepare_label
 from taskiq.schedule_sources.label_based import LabelScheduleSource
@@ -290,7 +291,7 @@ async def guarded(coro):
 
 def run_fire(c):
     log, started = [], []
-    AsyncBroker.global_task_registry.clear()
+    reset_globals()
     b = RecBroker(log, c["kick_ok"], c.get("kick_d", 0))
     src, late_bind = make_source(log, started, c)
     p = c["payload"]
@@ -327,29 +328,81 @@ def build_entry(e):
     return d
 
 
-def run_label(c):
-    log = []
+def reset_globals():
+    """process-wide state a scenario may have touched: the global task registry, the shared broker's default broker"""
     AsyncBroker.global_task_registry.clear()
+    async_shared_broker._default_broker = None
+
+
+def run_label(c):
+    reset_globals()
+    try:
+        return run_label_(c)
+    finally:
+        reset_globals()
+
+
+def run_label_(c):
+    """One history on a LabelScheduleSource(b).  Tasks b can see (get_all_tasks = global registry + b's local one):
+      locals            declared on b (register_task, or the decorator form when via == "task")
+      globals, plain    declared on b (own) or on another broker object `other` (foreign) and moved to the global registry
+      globals, decl == "shared" / "shared2": declared through async_shared_broker.task(...) / a second AsyncSharedBroker
+                        (foreign; a shared broker registers straight into the global registry)
+    `hidden` tasks are declared on a third broker and stay in its local registry (b cannot see them).  Tasks with the same `fn`
+    share one Python function (a function decorated on one broker and registered on another as well).
+    default_before / default_after / ["default", target, who] operations call <shared broker>.default_broker(b | other |
+    None) before the declarations / after them / between listings and firings."""
+    log = []
     b = RecBroker(log)
     other = RecBroker([])
+    third = RecBroker([])            # the broker of the hidden tasks (nothing of it ever reaches a registry b can see)
+    sh2 = AsyncSharedBroker()
     live = {}
+    fns = {}
+    keep = []                        # every declared task stays alive: `live` is keyed by id() of the schedule lists
 
-    def declare(t, broker):
+    def fn_of(t):
         def fn():
             return None
+        k = t.get("fn")
+        return fn if k is None else fns.setdefault(k, fn)
+
+    def set_default(target, who):
+        (async_shared_broker if target == "shared" else sh2).default_broker({"b": b, "other": other, "none": None}[who])
+
+    def declare(t, broker):
         labels = dec(t["labels"])
         if t["schedule"] is not None:
             labels["schedule"] = [build_entry(e) for e in t["schedule"]]
             live[id(labels["schedule"])] = t["name"]
-        return broker.register_task(fn, task_name=t["name"], **labels)
+        if t.get("via") == "task":
+            task = broker.task(t["name"], **labels)(fn_of(t))
+        else:
+            task = broker.register_task(fn_of(t), task_name=t["name"], **labels)
+        keep.append(task)
+        return task
 
+    for d in c.get("default_before", []):
+        set_default(*d)
+    for t in c.get("hidden", []):
+        declare(t, third)
     for t in c["globals"]:
-        br = b if t["own"] else other
-        task = declare(t, br)
-        del br.local_task_registry[t["name"]]
-        AsyncBroker.global_task_registry[t["name"]] = task
+        decl = t.get("decl", "plain")
+        if decl == "plain":
+            br = b if t["own"] else other
+            task = declare(t, br)
+            del br.local_task_registry[t["name"]]
+            AsyncBroker.global_task_registry[t["name"]] = task
+        else:
+            if t["own"]:
+                raise AssertionError("scenario: a shared-broker task is not the scheduler broker's own")
+            task = declare(t, async_shared_broker if decl == "shared" else sh2)
+            if AsyncBroker.global_task_registry.get(t["name"]) is not task:
+                raise AssertionError("scenario: shared task not in the global registry")
     for t in c["locals"]:
         declare(t, b)
+    for d in c.get("default_after", []):
+        set_default(*d)
     src = LabelScheduleSource(b)
     sch = TaskiqScheduler(b, [src])
     real_pre, real_post = src.pre_send, src.post_send   # the source's own methods, observed through instance attributes
@@ -415,13 +468,30 @@ def run_label(c):
                 except Exception as e:  # noqa: BLE001 - an observation
                     listings.append(None)
                     obs.append(dict(op="list", result=None, error=type(e).__name__, view=view()))
+            elif op[0] == "default":
+                set_default(op[1], op[2])
+                obs.append(dict(op="default"))
             else:
-                ok = [l for l in listings if l]
-                if not ok:
-                    obs.append(dict(op="skip"))
-                    continue
-                l = ok[op[1] % len(ok)]
-                s = l[op[2] % len(l)]
+                if op[0] == "fire_decl":
+                    # a schedule for a declared entry of ANY task b can see (own or foreign), built by hand - what another
+                    # source / a stale listing would hand to on_ready - fired through this source
+                    tasks = list(b.get_all_tasks().items())
+                    name, task = tasks[op[1] % len(tasks)]
+                    ents = [e for e in task.labels.get("schedule", []) if e.get("cron") is not None or e.get("time") is not None]
+                    if not ents:
+                        obs.append(dict(op="skip"))
+                        continue
+                    e = ents[op[2] % len(ents)]
+                    s = ScheduledTask(task_name=name, labels=dict(e.get("labels", {})), args=list(e.get("args", [])),
+                                      kwargs=dict(e.get("kwargs", {})), cron=e.get("cron"), time=e.get("time"),
+                                      cron_offset=e.get("cron_offset"))
+                else:
+                    ok = [l for l in listings if l]
+                    if not ok:
+                        obs.append(dict(op="skip"))
+                        continue
+                    l = ok[op[1] % len(ok)]
+                    s = l[op[2] % len(l)]
                 del log[:]
                 expect = prepared(s.labels)
                 before = sview(s)
@@ -430,7 +500,8 @@ def run_label(c):
                 log.append(["ret"])
                 v = view()                   # the registry as on_ready left it
                 await drain(started)
-                obs.append(dict(op="fire", sched=before, expect_labels=expect, effects=list(log), result=res, view=v))
+                obs.append(dict(op="fire", sched=before, expect_labels=expect, effects=list(log), result=res, view=v,
+                                by_hand=op[0] == "fire_decl"))
         return obs
 
     async def main_(loop):
